@@ -144,7 +144,7 @@ func (sm Barrier_instance) Write_verilog(bmach *Bondmachine, so_index int, barri
 	result += "	end\n"
 	result += "\n"
 
-	result += "	always @ (posedge clock) begin\n"
+	result += "	always @ (posedge clk) begin\n"
 	if has_tout {
 		result += "		if (done || timeout) begin\n"
 	} else {
@@ -160,14 +160,14 @@ func (sm Barrier_instance) Write_verilog(bmach *Bondmachine, so_index int, barri
 	result += "\n"
 
 	if has_tout {
-		result += "	always @ (posedge clock) begin\n"
+		result += "	always @ (posedge clk) begin\n"
 		result += "		if (!done & !timeout & (" + orlist + "))\n"
 		result += "			counter <= counter + 1'b1;\n"
 		result += "	end\n"
 		result += "\n"
 	}
 
-	result += "	always @(posedge clock) begin\n"
+	result += "	always @(posedge clk) begin\n"
 	result += "		if (" + andlist + ")\n"
 	result += "			done <= 1;\n"
 	if has_tout {
